@@ -33,8 +33,11 @@ Record centry := mkC { ce_dof : Z; ce_x : Q; ce_cdf : Q }.
 Inductive obs := ObsRaise (cls : string) | ObsResults (rs : list fitres).
 Inductive robs := RRaise (cls : string) | ROut (ys : list Q).
 Record rres := mkRR { rr_res : fitres; rr_vals : list Q }.
+(* the same call with the results handed over in another Iterable form (tuple, iterator, generator, filter, map,
+   dict values view, deque, chain, plain iterable object): what the implementation returned and its input afterwards *)
+Record rform := mkRF { rf_form : string; rf_obs : robs; rf_after : list Q }.
 Record rcase := mkRC { rc_label : string; rc_hasvar : bool; rc_data : list (Q * Q); rc_results : list rres;
-                       rc_obs : robs; rc_after : list Q }.
+                       rc_obs : robs; rc_after : list Q; rc_more : list rform }.
 (* one (peak, background) combination of the model lists fitted ON ITS OWN by the implementation (single-model
    specification, the windows of the list call given explicitly): its per-peak results *)
 Record solo := mkS { s_pk : mkind; s_bk : mkind; s_res : list fitres }.
@@ -346,19 +349,47 @@ Fixpoint cmp_removed (i : nat) (rrs : list rres) (xs : list Q) (inp model out : 
   | _, _, _ => "length"
   end.
 
-Definition check_remove (rc : rcase) : string :=
+(* the model's remove_peaks is a function of the SEQUENCE of results: whatever Iterable form carries that sequence,
+   the implementation's output must be the model's (and its input must stay unchanged) *)
+Definition check_remove_one (rc : rcase) (m : res (list (Q * Q))) (label : string) (o : robs) (after : list Q) : string :=
   let xs := map fst (rc_data rc) in
-  let m := remove_peaks (peval_inst (rc_results rc) xs) (rc_hasvar rc) (rc_data rc) (map rr_res (rc_results rc)) in
   let r :=
-    match m, rc_obs rc with
+    match m, o with
     | Raise e, RRaise cls => if String.eqb (exn_class e) cls then "" else "exception model=" ++ exn_class e ++ " impl=" ++ cls
     | Raise e, ROut _ => "model-raises-" ++ exn_class e ++ " impl-returns"
     | Ok _, RRaise cls => "impl-raises-" ++ cls
     | Ok mo, ROut ys => cmp_removed 0 (rc_results rc) xs (rc_data rc) mo (combine xs ys)
     end in
-  if negb (String.eqb r "") then "REMOVE " ++ rc_label rc ++ " " ++ r
-  else if negb (list_eqb Qeq_bool (map snd (rc_data rc)) (rc_after rc)) then "REMOVE " ++ rc_label rc ++ " input-modified"
+  if negb (String.eqb r "") then "REMOVE " ++ label ++ " " ++ r
+  else if negb (list_eqb Qeq_bool (map snd (rc_data rc)) after) then "REMOVE " ++ label ++ " input-modified"
   else "".
+
+(* another Iterable form whose output is bit-identical to the list call's output (already compared with the model)
+   needs no second comparison; anything else is compared with the model in full *)
+Definition same_robs (a b : robs) : bool :=
+  match a, b with
+  | ROut x, ROut y => list_eqb Qeq_bool x y
+  | RRaise x, RRaise y => String.eqb x y
+  | _, _ => false
+  end.
+
+Definition check_remove (rc : rcase) : string :=
+  let xs := map fst (rc_data rc) in
+  let m := remove_peaks (peval_inst (rc_results rc) xs) (rc_hasvar rc) (rc_data rc) (map rr_res (rc_results rc)) in
+  let r := check_remove_one rc m (rc_label rc) (rc_obs rc) (rc_after rc) in
+  if negb (String.eqb r "") then r
+  else
+    match filter (fun s => negb (String.eqb s ""))
+                 (map (fun f =>
+                         let label := rc_label rc ++ "[results-as-" ++ rf_form f ++ "]" in
+                         if same_robs (rc_obs rc) (rf_obs f)
+                         then (if list_eqb Qeq_bool (map snd (rc_data rc)) (rf_after f) then ""
+                               else "REMOVE " ++ label ++ " input-modified")
+                         else check_remove_one rc m label (rf_obs f) (rf_after f))
+                      (rc_more rc)) with
+    | [] => ""
+    | s :: _ => s
+    end.
 
 Definition check (c : fcase) : string :=
   let f := check_fit c in
